@@ -1,5 +1,5 @@
 """Property -> rule families.  Each entry is a list of callables taking the Run context."""
-import rf_alloc, rf_state, rf_tables, rf_sig, rf_union, rf_flow, rf_vocab, rf_mir2c, rf_code, rf_bounds, rf_fold, rf_proto, rf_dispatch, rf_keys, rf_abi
+import rf_alloc, rf_state, rf_tables, rf_sig, rf_union, rf_flow, rf_vocab, rf_mir2c, rf_code, rf_bounds, rf_fold, rf_proto, rf_dispatch, rf_keys, rf_abi, rf_x86
 from lib import facts as F
 
 
@@ -246,6 +246,11 @@ def c06_rf10(run):
     run.min_instances('RF7f', 30)
 
 
+def c02_rf9(run):
+    rf_x86.rf9(run)
+    run.min_instances('RF9', 1500)
+
+
 def c02_rf26(run):
     rf_fold.rf26(run)
     run.min_instances('RF26', 10)
@@ -257,12 +262,12 @@ PLAN = {
     'C13': [c13_rf16],
     'C14': [c14_rf16f],
     'C16': [c16_rf16],
-    'C01': [c02_rf8, c02_rf23, c01_rf18, c02_rf26],
+    'C01': [c02_rf8, c02_rf23, c01_rf18, c02_rf26, c02_rf9],
     'C04': [c04_rf18],
     'C12': [c12_rf13],
     'C10': [c10_rf6, c10_vocab],
     'C11': [c11_rf6, c11_vocab, c11_rf14],
-    'C02': [c02_rf8, c02_rf23, c02_rf7a, c02_rf26],
+    'C02': [c02_rf8, c02_rf23, c02_rf7a, c02_rf26, c02_rf9],
     'C20': [c20_rf8, c20_rf6, c20_rf21, c20_rf7h],
     'C15': [c15_rf17, c15_rf16h, c15_rf7b, c15_rf19],
     'C18': [c18_rf5],
